@@ -303,6 +303,12 @@ impl FixtureDatabase {
         // Remove from imported_fixtures_cache
         self.imported_fixtures_cache.remove(&canonical);
 
+        // Readers of this file's content now fall back to the file on disk, which differs
+        // from the editor buffer if it was closed without saving. Cached answers of OTHER
+        // files (available fixtures, imported fixtures, cycles) were computed from the buffer
+        // and are validated by the definitions version only, so it has to move.
+        self.invalidate_cycle_cache();
+
         // Note: We don't remove from canonical_path_cache because:
         // 1. It's keyed by original path, not canonical path
         // 2. Path->canonical mappings are stable and small
